@@ -282,10 +282,27 @@ class NpFunc(Model):
         return Result(self.__name__, self.calls[-1][0], self.calls[-1][1], self.dtype)
 
 
-def _as_array(copying):
+MASK_DROPPED = "mask dropped by asarray"
+
+
+def is_masked(origin):
+    """the origin denotes a numpy.ma.MaskedArray: it is built from a ('ma', name) buffer and no step threw the mask away"""
+    if isinstance(origin, tuple):
+        if origin[:1] == (MASK_DROPPED,):
+            return False
+        if origin[:1] == ("ma",):
+            return True
+        return any(is_masked(x) for x in origin)
+    return False
+
+
+def _as_array(copying, keeps_subclass=True):
     def f(v, *a, **k):
         if not isinstance(v, (RawTok, Result, NdTok)):
             return RawTok(("num", v) if not isinstance(v, list) else ("list", tuple(v)), ())
+        if not keeps_subclass and not k.get("subok", False) and is_masked(getattr(v, "origin", None)):
+            # numpy.asarray / numpy.array (subok=False) return the bare data of a masked array: the mask is gone
+            return RawTok((MASK_DROPPED, v.origin), getattr(v, "shape", (3,)), getattr(v, "dtype", None))
         may_copy = copying or k.get("order") not in (None, "K", "A") or k.get("dtype") is not None or (len(a) > 0 and a[0] is not None)
         if k.get("copy") is False:
             may_copy = k.get("order") not in (None, "K", "A") or k.get("dtype") is not None
@@ -297,7 +314,7 @@ def _as_array(copying):
 
 def hooks():
     return {
-        "ext": {"numpy.require": lambda x, *a, **k: x, "numpy.ascontiguousarray": lambda x, *a, **k: x, "numpy.asarray": _as_array(False), "numpy.asanyarray": _as_array(False), "numpy.array": _as_array(True),
+        "ext": {"numpy.require": lambda x, *a, **k: x, "numpy.ascontiguousarray": lambda x, *a, **k: x, "numpy.asarray": _as_array(False, keeps_subclass=False), "numpy.asanyarray": _as_array(False), "numpy.array": _as_array(True, keeps_subclass=False),
                 "numpy.ascontiguousarray": _as_array(True), "numpy.copy": _as_array(True),
                 "numpy.issubdtype": issubdtype, "numpy.can_cast": can_cast,
                 "numpy.reciprocal": lambda x: x, "numpy.amin": lambda x: x, "numpy.amax": lambda x: x},
@@ -722,6 +739,42 @@ def check_to_fold(run, tree):
                        "or incompatible dimensions accepted", nontrivial=label != "unit object")
             except ERR as e:
                 run.unresolved(c, fi.where(), "cannot fold: %s" % e)
+
+
+def check_masked_buffers(run, tree):
+    """An Array may hold a numpy masked array (maps and histograms produce them): construction, copy, to(), indexing and the numpy dispatch
+    keep the mask - numpy.asarray / numpy.array on the way would hand the hidden entries back as ordinary values."""
+    hk = hooks()
+    ci = tree.cls(ARRAY_Q)
+    MA = ("ma", "A")
+
+    def masked_array():
+        ev = ModelEval(tree, tree.func(ARRAY_Q + ".__init__"), {}, hk)
+        return ev, ev.instantiate(ci, [], {"values": RawTok(MA, (4,)), "unit": "m", "name": "nm"}, None)
+
+    def buffer_of(x):
+        return getattr(x._attrs.get("_array"), "origin", x._attrs.get("_array")) if isinstance(x, PyObj) else getattr(x, "origin", x)
+    steps = [("constructed from a masked array", lambda ev, a: a),
+             ("copy()", lambda ev, a: ev.invoke(tree.method(ci, "copy"), [a], {}, None)),
+             ("to('cm')", lambda ev, a: ev.invoke(tree.method(ci, "to"), [a, "cm"], {}, None)),
+             ("to('m') (same unit)", lambda ev, a: ev.invoke(tree.method(ci, "to"), [a, "m"], {}, None)),
+             ("a[1:3]", lambda ev, a: ev.invoke(tree.method(ci, "__getitem__"), [a, slice(1, 3)], {}, None)),
+             ("numpy function through _wrap_numpy (np.multiply(a, 2.0))", lambda ev, a: ev.invoke(tree.method(ci, "_wrap_numpy"), [a, NpFunc("multiply"), a, 2.0], {}, None)),
+             (".values", lambda ev, a: ev.obj_getattr(a, "values"))]
+    for label, step in steps:
+        construct = "%s[masked-array values: %s]" % (ARRAY_Q, label)
+        try:
+            ev, a = masked_array()
+            try:
+                r = step(ev, a)
+            except Raised as e:
+                run.violated(construct, ci.module.rel, "raises %s" % e.name, "Arrays holding masked arrays (every map / histogram layer)")
+                continue
+            o = buffer_of(r)
+            run.ob(construct, is_masked(o), "src/osyris/core/array.py", "buffer of the result: %r%s" % (o, "" if is_masked(o) else " - the mask is gone"),
+                   "an Array holding a masked array (a map layer): after %s the entries hidden under the mask come back as ordinary values (max(), sums and plots include them)" % label)
+        except ERR as e:
+            run.unresolved(construct, "src/osyris/core/array.py", "cannot fold: %s" % e)
 
 
 # =============================================================================== operator table (S4) as a fold
